@@ -112,10 +112,10 @@ def vorticity_stretching_timestep_ssprk3_3d(K):
         a3 = A(a2)
         for i in range(3):
             K.ensures_eq(f"interior_comp{i}_is_(I+A+A^2/2+A^3/6)w", K.value(w, (i,) + c),
-                         w0[i] + a1[i] + Fr(1, 2) * a2[i] + Fr(1, 6) * a3[i])
+                         w0[i] + a1[i] + Fr(1, 2) * a2[i] + Fr(1, 6) * a3[i], props=("C20",))
             # recorded finding F1 (known_findings.json): half third stage => I + 2/3 A + 1/3 A^2 + 1/12 A^3
             K.signature(f"F1_signature_comp{i}", K.value(w, (i,) + c),
-                        w0[i] + Fr(2, 3) * a1[i] + Fr(1, 3) * a2[i] + Fr(1, 12) * a3[i])
+                        w0[i] + Fr(2, 3) * a1[i] + Fr(1, 3) * a2[i] + Fr(1, 12) * a3[i], props=("C20",))
     for _ in K.case(not_(inside)):
         for i in range(3):
             K.ensures_eq(f"ring_comp{i}_unchanged", K.value(w, (i,) + c), w0[i])
